@@ -1,2 +1,3 @@
 -- all property modules (built by setup.sh)
 import GoNeat.Props.C13
+import GoNeat.Props.C12
